@@ -143,11 +143,12 @@ PROPS = {
         explanation='CRDT mutators, clock and merge proved (Verus, Kani); the gossip manager as caller of those contracts and long merge orders are bounded (c17_manager, c17_merge).',
     ),
     'C18': dict(
-        v=[], k=[('graph_engine', ['c18_dijkstra_entry_total_order', 'c18_dijkstra_entry_min_heap_direction'])], b=['c18_paths'],
+        v=['C18_path'], k=[('graph_engine', ['c18_dijkstra_entry_total_order', 'c18_dijkstra_entry_min_heap_direction'])], b=['c18_paths'],
+        pairs={'C18_path': ['bounded:c18_paths']},
         level='other',
-        technique='Kani full-domain harnesses on the Dijkstra heap entry ordering',
-        claim='heap entry order is total, NaN-safe and min-first (Kani, complete)',
-        explanation='Heap order kernel proved; path validity/optimality bounded.',
+        technique='Verus: GraphEngine::find_path and reconstruct_path extracted and proved SOUND for every graph and filter (a returned path starts at the source, ends at the target, each step is an existing edge accepted by the filter and walked in an allowed direction, intermediate nodes pass the node filter) with a ghost BFS depth map making the parent pointers well-founded; Kani full-domain harnesses on the Dijkstra heap entry ordering; bounded native checks of optimality, completeness, weighted search, traversals, variable-length matches and the graph algorithms against brute force on small multigraphs',
+        claim='validity of every path returned by find_path proved for all graphs (Verus; graph reads uninterpreted, termination not proved); heap entry order is total, NaN-safe and min-first (Kani, complete); BOUNDED: fewest hops / lowest weight / PathNotFound iff none, traversal and variable-length result sets, component / MST / k-core / triangle algorithms vs definitions on all enumerated multigraphs',
+        explanation='Path validity of find_path and the heap order kernel proved; optimality, completeness and the other queries bounded.',
     ),
     'C19': dict(
         v=['C19_chunk'], k=[], b=['c19_blob'],
